@@ -89,6 +89,13 @@ def reader_spelling_not_encoder_spelling(case, m):
         # the two symbols have one name but different spellings, one of them not the encoder's
         if not case["impl"].startswith("ok b0 b1"):
             return False
+        # ... and at least one of the two was produced by a READER route (literal, quoted datum, macro template,
+        # eval of a datum): two string->symbol productions of one name that are not eq? are a different violation
+        # (seed C18d-1), never this finding
+        routes = f[4].split("/")[0].split("+") if len(f) > 4 else []
+        S2S = ("s2s", "eval-s2s", "re-s2s")
+        if len(routes) == 2 and all(r in S2S for r in routes):
+            return False
         return not_encoder_spelling(dec_text(f[2])) or not_encoder_spelling(dec_text(f[3]))
     return False
 
